@@ -29,6 +29,11 @@ func c10Body(r *Run) {
 	t := r.T
 	nH := 1 + t.Skewed(5)
 	nLate := t.Skewed(3)
+	// a quarter of the runs: every handler is stopped the moment it has started; the router must close itself
+	earlyAll := t.Chance(1, 4)
+	if earlyAll {
+		nLate = 0
+	}
 	ending := t.Int(3) // 0 Close, 1 cancel Run context, 2 stop every handler
 	secondRun := t.Int(3)
 	extraRunHandlers := t.Skewed(4)
@@ -41,7 +46,10 @@ func c10Body(r *Run) {
 		h := &c10H{name: fmt.Sprintf("h%d", i), topic: fmt.Sprintf("t%d", i), late: i >= nH, handled: map[string]int{}}
 		h.sharedOut = t.Chance(1, 4)
 		h.stopMode = simrt.Pick(t, 0, 0, 1, 2)
-		if i == 0 && h.stopMode == 1 {
+		if earlyAll {
+			h.stopMode = 1
+		}
+		if i == 0 && h.stopMode == 1 && !earlyAll {
 			// one registered handler keeps running until phase 2: handlers are not added while the router shuts itself down
 			h.stopMode = 2
 		}
@@ -49,7 +57,7 @@ func c10Body(r *Run) {
 		hs = append(hs, h)
 		r.Describe("%s late=%v publisherSharedGoChannel=%v stopMode=%d", h.name, h.late, h.sharedOut, h.stopMode)
 	}
-	r.Describe("ending=%d (0 Close, 1 cancel ctx, 2 stop all) secondRun=%d extraRunHandlers=%d", ending, secondRun, extraRunHandlers)
+	r.Describe("ending=%d (0 Close, 1 cancel ctx, 2 stop all) secondRun=%d extraRunHandlers=%d stopEveryHandlerAtOnce=%v", ending, secondRun, extraRunHandlers, earlyAll)
 
 	add := func(h *c10H) {
 		var pub message.Publisher = h.pub
